@@ -80,6 +80,17 @@ def run(index, tier="quick", seed=0) -> Result:
             rot_sites += len([s for s in dc.rot_sites if s[1] == "eigvecs"])
             label = name + (".setter" if kind == "setter" else "")
             _collect(res, cls, label, fn, dc, it, r)
+    # MEMO-1: results memoised on the identity of a mutable shape go stale after any mutation
+    for cls in index.shape_classes():
+        for c in cls.mro:
+            if c is not cls:
+                continue
+            for f in list(c.methods.values()) + [p.getter for p in c.props.values() if p.getter]:
+                for d in f.decorators:
+                    if any(x in d for x in ("lru_cache", "functools.cache", "memoize")) or d == "cache":
+                        res.bad("MEMO-1", f"{c.name}.{f.name}:{d.split('(')[0]}", f"{f.file}:{f.lineno}",
+                                f"{c.name}.{f.name} is memoised with @{d} on a mutable shape: the cached result lags behind every later mutation")
+    res.ok("MEMO-1", "no memoising decorator on shape members", nontrivial=False)
     res.extra["mutator_pairs"] = pairs
     res.extra["rot1_sites"] = rot_sites
     if pairs < 60:
@@ -99,12 +110,13 @@ def _collect(res, cls, label, fn, dc, it, r, rule_exit="COH-1", rule_read="COH-2
         oid, cache, part = key
         name = cache + ("." + part if part else "")
         k = f"{cls.name}.{label}:{_o(oid)}{name}"
+        from ..components import EXTRA_CACHE_READS
         if k in seen:
             continue
         seen.add(k)
         bad = True
         what = f"normal exit with {_o(oid)}{name} {_status(cur)}"
-        res.bad(rule_exit if cache != "edges" else ("COH-4" if rule_exit == "COH-1" else rule_exit), k,
+        res.bad(rule_exit if (cache != "edges" and cache not in EXTRA_CACHE_READS) else ("COH-4" if rule_exit == "COH-1" else rule_exit), k,
                 f"{fn.file}:{getattr(node, 'lineno', fn.lineno)}", what, cls=cls.name, member=label,
                 cache=name, status=str(cur))
     # dirty reads not forgiven by an own-update
